@@ -9,7 +9,7 @@
    PARTIAL: conservation is proved for payments and swaps (the only value-moving primitives besides
    cw20 mint/burn); "LP supply changes only by provision/withdrawal" is given by same_config in
    C02_settlement (swaps), C04_sys and C05_supply, and monitored on the real contracts. *)
-From HT Require Import Base.Prelude Num.Arith Amm.Formulas Amm.Guards World.World Proofs.LedgerProofs Proofs.FrameProofs.
+From HT Require Import Base.Prelude Num.Arith Amm.Formulas Amm.Guards World.World Proofs.LedgerProofs Proofs.FrameProofs Proofs.AuthProofs.
 
 Theorem C07_frame : forall w o w', (forall q, w_next w <= q -> w_tokens w q = None) ->
   exec w o = Ok w' -> frame (touched w o) w w'.
@@ -41,7 +41,7 @@ Proof. exact pair_swap_conserves. Qed.
 
 (* a failed transaction changes nothing *)
 Theorem C07_failed_tx_unchanged : forall w o e, exec w o = Err e -> step w o = w.
-Proof. intros w o e H. unfold step. now rewrite H. Qed.
+Proof. exact step_failed_unchanged. Qed.
 
 Print Assumptions C07_frame.
 Print Assumptions C07_frame_unconditional.
